@@ -138,7 +138,7 @@ def r031(ctx, rid):
         fnp = CC + 'State::collect_body'
         rows = P.table(ctx, fnp, ['self', 'channel_id', 'body'])
         site = ctx.site(fnp)
-        LEN, SIZE = 'std::vec::Vec::len(self.Body.2)', '(self.Body.1.body_size as usize)'
+        LEN, SIZE = 'std::vec::Vec::len(self.Body.2)', 'self.Body.1.body_size'
         cmpc = LEN  # the length is taken after the append, whatever form the three-way comparison has
         SB = '~ ' + CC + 'State::Body(_, _, _)'
         eq = [x for x in find_path(rows, SB) if x.conds[-1] == ('(%s == %s)' % tuple(sorted([LEN, SIZE])), True)]
